@@ -1,6 +1,432 @@
-import SlipVerif.Model.ListHeap
+import SlipVerif.Lemmas.ListHeap
+/-
+  C06 — property theorems about SlipVerif.Model.ListHeap, the model the correspondence harness runs
+  against the implementation (Driver/ListHeap.lean executes exactly `run`, `footprint`, `valueOf`,
+  `chain`, `carsOf`).
+
+  A "variable" is any reference `r` whose list exists in the heap: `chain h n r = some as` (for some
+  fuel `n`); its printed contents are `carsOf h as`.  All statements hold for every heap, every
+  reference and every fuel value.
+-/
 namespace SlipVerif.ListHeap
 
-theorem placeholder_true : True := trivial
+/-! ## non-destructive operations: every existing cell, list and printed value is unchanged -/
+
+/-- A non-destructive operation only appends cells to the heap. -/
+theorem nondestructive_only_allocates {h h' : Heap} {op : Op} {res : Ref}
+    (hnd : op.destructive = false) (hr : run h op = .ok (h', res)) : ∃ ext, h' = h ++ ext := by
+  cases op with
+  | lit vs =>
+    simp [run] at hr
+    obtain ⟨ext, he⟩ := allocList_grows h vs .nil
+    exact ⟨ext, by rw [← he, hr]⟩
+  | alias x => simp [run] at hr; exact ⟨[], by simp [hr.1]⟩
+  | cons v x => simp [run] at hr; exact ⟨_, hr.1.symm⟩
+  | listStar v w x => simp [run] at hr; exact ⟨_, hr.1.symm⟩
+  | append x y =>
+    unfold run at hr
+    cases hx : chainOf h x with
+    | error e => simp [hx, bind, Except.bind] at hr
+    | ok as =>
+      cases hy : chainOf h y with
+      | error e => simp [hx, hy, bind, Except.bind] at hr
+      | ok bs =>
+        simp [hx, hy, bind, Except.bind] at hr
+        obtain ⟨ext, he⟩ := allocList_grows h (carsOf h as) y
+        exact ⟨ext, by rw [← he, hr]⟩
+  | nthcdr n x =>
+    unfold run at hr
+    cases hx : chainOf h x with
+    | error e => simp [hx, bind, Except.bind] at hr
+    | ok as => simp [hx, bind, Except.bind] at hr; exact ⟨[], by simp [hr.1]⟩
+  | last n x =>
+    unfold run at hr
+    cases hx : chainOf h x with
+    | error e => simp [hx, bind, Except.bind] at hr
+    | ok as => simp [hx, bind, Except.bind] at hr; exact ⟨[], by simp [hr.1]⟩
+  | member v x =>
+    unfold run at hr
+    cases hx : chainOf h x with
+    | error e => simp [hx, bind, Except.bind] at hr
+    | ok as => simp [hx, bind, Except.bind] at hr; exact ⟨[], by simp [hr.1]⟩
+  | butlast n x =>
+    unfold run at hr
+    cases hx : chainOf h x with
+    | error e => simp [hx, bind, Except.bind] at hr
+    | ok as =>
+      simp [hx, bind, Except.bind] at hr
+      obtain ⟨ext, he⟩ := allocList_grows h (vButlast n (carsOf h as)) .nil
+      exact ⟨ext, by rw [← he, hr]⟩
+  | subseq s e x =>
+    unfold run at hr
+    cases hx : chainOf h x with
+    | error e => simp [hx, bind, Except.bind] at hr
+    | ok as =>
+      cases hv : vSubseq s e (carsOf h as) with
+      | error e => simp [hx, hv, bind, Except.bind] at hr
+      | ok vs =>
+        simp [hx, hv, bind, Except.bind] at hr
+        obtain ⟨ext, he⟩ := allocList_grows h vs .nil
+        exact ⟨ext, by rw [← he, hr]⟩
+  | copyList x =>
+    unfold run at hr
+    cases hx : chainOf h x with
+    | error e => simp [hx, bind, Except.bind] at hr
+    | ok as =>
+      simp [hx, bind, Except.bind] at hr
+      obtain ⟨ext, he⟩ := allocList_grows h (carsOf h as) .nil
+      exact ⟨ext, by rw [← he, hr]⟩
+  | reverse x =>
+    unfold run at hr
+    cases hx : chainOf h x with
+    | error e => simp [hx, bind, Except.bind] at hr
+    | ok as =>
+      simp [hx, bind, Except.bind] at hr
+      obtain ⟨ext, he⟩ := allocList_grows h (carsOf h as).reverse .nil
+      exact ⟨ext, by rw [← he, hr]⟩
+  | remove p x =>
+    unfold run at hr
+    cases hx : chainOf h x with
+    | error e => simp [hx, bind, Except.bind] at hr
+    | ok as =>
+      simp [hx, bind, Except.bind] at hr
+      obtain ⟨ext, he⟩ := removeCells_grows p h as
+      exact ⟨ext, by rw [← he, hr]⟩
+  | mapcar f x =>
+    unfold run at hr
+    cases hx : chainOf h x with
+    | error e => simp [hx, bind, Except.bind] at hr
+    | ok as =>
+      simp [hx, bind, Except.bind] at hr
+      obtain ⟨ext, he⟩ := allocList_grows h (vMapcar f (carsOf h as)) .nil
+      exact ⟨ext, by rw [← he, hr]⟩
+  | rplaca x v => simp [Op.destructive] at hnd
+  | setNth n x v => simp [Op.destructive] at hnd
+  | rplacd x y => simp [Op.destructive] at hnd
+  | nconc x y => simp [Op.destructive] at hnd
+  | add x vs => simp [Op.destructive] at hnd
+  | nreverse x => simp [Op.destructive] at hnd
+  | sort x => simp [Op.destructive] at hnd
+  | delete p x => simp [Op.destructive] at hnd
+
+/-- **nondestructive_frame.** An operation that is not documented as destructive leaves every
+    existing cell unchanged, hence every existing list keeps its cells and its printed contents. -/
+theorem nondestructive_frame {h h' : Heap} {op : Op} {res : Ref}
+    (hnd : op.destructive = false) (hr : run h op = .ok (h', res))
+    {n : Nat} {r : Ref} {as : List Nat} (hc : chain h n r = some as) :
+    (∀ a, a < h.length → h'[a]? = h[a]?) ∧ chain h' n r = some as ∧ carsOf h' as = carsOf h as := by
+  obtain ⟨ext, he⟩ := nondestructive_only_allocates hnd hr
+  subst he
+  exact ⟨fun a ha => getElem?_append_old h ext ha, frame_of_append ext hc⟩
+
+/-- the same, for printed contents -/
+theorem nondestructive_contents {h h' : Heap} {op : Op} {res : Ref}
+    (hnd : op.destructive = false) (hr : run h op = .ok (h', res))
+    {n : Nat} {r : Ref} {vs : List Val} (hc : contents h n r = some vs) : contents h' n r = some vs := by
+  unfold contents at hc ⊢
+  cases hch : chain h n r with
+  | none => simp [hch] at hc
+  | some as =>
+    obtain ⟨_, h1, h2⟩ := nondestructive_frame hnd hr hch
+    simp [hch] at hc
+    simp [h1, h2, hc]
+
+example : run [] (.lit [1, 2]) = .ok ([⟨2, .nil⟩, ⟨1, .cell 0⟩], .cell 1) := by rfl
+example : contents [⟨2, .nil⟩, ⟨1, .cell 0⟩] 3 (.cell 1) = some [1, 2] := by decide
+
+/-! ## destructive operations: only cells reachable from the list arguments are written -/
+
+/-- the cells reachable from the list arguments, as the footprint lists them -/
+theorem mem_footprint_of_chainOf {h : Heap} {op : Op} {x : Ref} {as : List Nat} {a : Nat}
+    (hd : op.destructive = true) (hx : x ∈ op.listArgs) (hc : chainOf h x = .ok as) (ha : a ∈ as) :
+    a ∈ footprint h op := by
+  unfold footprint
+  simp only [hd, if_true, List.mem_flatMap]
+  exact ⟨x, hx, by simp [hc, ha]⟩
+
+/-- **destructive_footprint (cells).** A destructive operation changes no cell outside the cells
+    reachable from its list arguments. -/
+theorem destructive_writes_within_footprint {h h' : Heap} {op : Op} {res : Ref}
+    (hd : op.destructive = true) (hr : run h op = .ok (h', res))
+    {a : Nat} (ha : a < h.length) (hnf : a ∉ footprint h op) : h'[a]? = h[a]? := by
+  cases op with
+  | lit vs => simp [Op.destructive] at hd
+  | alias x => simp [Op.destructive] at hd
+  | cons v x => simp [Op.destructive] at hd
+  | listStar v w x => simp [Op.destructive] at hd
+  | append x y => simp [Op.destructive] at hd
+  | nthcdr n x => simp [Op.destructive] at hd
+  | last n x => simp [Op.destructive] at hd
+  | member v x => simp [Op.destructive] at hd
+  | butlast n x => simp [Op.destructive] at hd
+  | subseq s e x => simp [Op.destructive] at hd
+  | copyList x => simp [Op.destructive] at hd
+  | reverse x => simp [Op.destructive] at hd
+  | remove p x => simp [Op.destructive] at hd
+  | mapcar f x => simp [Op.destructive] at hd
+  | rplaca x v =>
+    unfold run at hr
+    cases hx : chainOf h x with
+    | error e => simp [hx, bind, Except.bind] at hr
+    | ok as =>
+      have hfp : a ∉ as := by simpa [footprint, Op.destructive, Op.listArgs, hx] using hnf
+      cases as with
+      | nil => simp [hx, bind, Except.bind] at hr
+      | cons b rest =>
+        simp [hx, bind, Except.bind] at hr
+        have hne : a ≠ b := fun e => hfp (by simp [e])
+        rw [← hr.1]; exact setCar_ne _ _ hne
+  | setNth n x v =>
+    unfold run at hr
+    cases hx : chainOf h x with
+    | error e => simp [hx, bind, Except.bind] at hr
+    | ok as =>
+      have hfp : a ∉ as := by simpa [footprint, Op.destructive, Op.listArgs, hx] using hnf
+      cases hb : as[n]? with
+      | none => simp [hx, hb, bind, Except.bind] at hr
+      | some b =>
+        simp [hx, hb, bind, Except.bind] at hr
+        have hmem : b ∈ as := List.mem_of_getElem? hb
+        have hne : a ≠ b := fun e => hfp (e ▸ hmem)
+        rw [← hr.1]; exact setCar_ne _ _ hne
+  | rplacd x y =>
+    unfold run at hr
+    cases hx : chainOf h x with
+    | error e => simp [hx, bind, Except.bind] at hr
+    | ok as =>
+      cases hy : chainOf h y with
+      | error e => simp [hx, hy, bind, Except.bind] at hr
+      | ok bs =>
+        have hfp : a ∉ as ∧ a ∉ bs := by
+          simpa [footprint, Op.destructive, Op.listArgs, hx, hy, not_or] using hnf
+        cases as with
+        | nil => simp [hx, hy, bind, Except.bind] at hr
+        | cons b rest =>
+          simp [hx, hy, bind, Except.bind] at hr
+          split at hr
+          · simp at hr
+          · simp at hr
+            have hne : a ≠ b := fun e => hfp.1 (by simp [e])
+            rw [← hr.1]; exact setCdr_ne _ _ hne
+  | nconc x y =>
+    unfold run at hr
+    cases hx : chainOf h x with
+    | error e => simp [hx, bind, Except.bind] at hr
+    | ok as =>
+      cases hy : chainOf h y with
+      | error e => simp [hx, hy, bind, Except.bind] at hr
+      | ok bs =>
+        have hfp : a ∉ as ∧ a ∉ bs := by
+          simpa [footprint, Op.destructive, Op.listArgs, hx, hy, not_or] using hnf
+        simp [hx, hy, bind, Except.bind] at hr
+        split at hr
+        · simp at hr; rw [hr.1]
+        · simp at hr; rw [hr.1]
+        · rename_i l _ hl
+          split at hr
+          · simp at hr
+          · simp at hr
+            have hmem : l ∈ as := List.mem_of_getLast? hl
+            have hne : a ≠ l := fun e => hfp.1 (e ▸ hmem)
+            rw [← hr.1]; exact setCdr_ne _ _ hne
+  | add x vs =>
+    unfold run at hr
+    cases hx : chainOf h x with
+    | error e => simp [hx, bind, Except.bind] at hr
+    | ok as =>
+      have hfp : a ∉ as := by simpa [footprint, Op.destructive, Op.listArgs, hx] using hnf
+      obtain ⟨ext, he⟩ := allocList_grows h vs .nil
+      simp [hx, bind, Except.bind] at hr
+      cases hl : as.getLast? with
+      | none =>
+        simp [hl] at hr
+        rw [← hr.1, he]; exact getElem?_append_old h ext ha
+      | some l =>
+        simp [hl] at hr
+        have hmem : l ∈ as := List.mem_of_getLast? hl
+        have hne : a ≠ l := fun e => hfp (e ▸ hmem)
+        rw [← hr.1, setCdr_ne _ _ hne, he]; exact getElem?_append_old h ext ha
+  | nreverse x =>
+    unfold run at hr
+    cases hx : chainOf h x with
+    | error e => simp [hx, bind, Except.bind] at hr
+    | ok as =>
+      have hfp : a ∉ as := by simpa [footprint, Op.destructive, Op.listArgs, hx] using hnf
+      simp [hx, bind, Except.bind] at hr
+      rw [← hr.1]; exact writeCars_notin _ _ _ hfp
+  | sort x =>
+    unfold run at hr
+    cases hx : chainOf h x with
+    | error e => simp [hx, bind, Except.bind] at hr
+    | ok as =>
+      have hfp : a ∉ as := by simpa [footprint, Op.destructive, Op.listArgs, hx] using hnf
+      simp [hx, bind, Except.bind] at hr
+      rw [← hr.1]; exact writeCars_notin _ _ _ hfp
+  | delete p x =>
+    unfold run at hr
+    cases hx : chainOf h x with
+    | error e => simp [hx, bind, Except.bind] at hr
+    | ok as =>
+      have hfp : a ∉ as := by simpa [footprint, Op.destructive, Op.listArgs, hx] using hnf
+      simp [hx, bind, Except.bind] at hr
+      rw [← hr.1]
+      apply linkCells_notin
+      intro hm
+      exact hfp (List.mem_filter.mp hm).1
+
+/-- **destructive_footprint.** `nconc nreverse sort delete rplaca rplacd (setf car/nth/elt) add`
+    change only cells reachable from their list arguments: a list none of whose cells is reachable
+    from the arguments keeps its cells and its printed contents. -/
+theorem destructive_footprint {h h' : Heap} {op : Op} {res : Ref}
+    (hd : op.destructive = true) (hr : run h op = .ok (h', res))
+    {n : Nat} {r : Ref} {as : List Nat} (hc : chain h n r = some as)
+    (hdisj : ∀ a ∈ as, a ∉ footprint h op) :
+    chain h' n r = some as ∧ carsOf h' as = carsOf h as := by
+  have hlt := chain_lt hc
+  have hag : ∀ a ∈ as, h'[a]? = h[a]? :=
+    fun a ha => destructive_writes_within_footprint hd hr (hlt a ha) (hdisj a ha)
+  exact ⟨chain_congr hc hag, carsOf_congr hag⟩
+
+theorem destructive_contents {h h' : Heap} {op : Op} {res : Ref}
+    (hd : op.destructive = true) (hr : run h op = .ok (h', res))
+    {n : Nat} {r : Ref} {as : List Nat} (hc : chain h n r = some as)
+    (hdisj : ∀ a ∈ as, a ∉ footprint h op) : contents h' n r = contents h n r := by
+  obtain ⟨h1, h2⟩ := destructive_footprint hd hr hc hdisj
+  simp [contents, hc, h1, h2]
+
+-- a concrete instance: b = (4 5) is disjoint from a = (1 2); (nreverse a) leaves b alone
+example :
+    let h : Heap := [⟨2, .nil⟩, ⟨1, .cell 0⟩, ⟨5, .nil⟩, ⟨4, .cell 2⟩]
+    run h (.nreverse (.cell 1)) = .ok ([⟨1, .nil⟩, ⟨2, .cell 0⟩, ⟨5, .nil⟩, ⟨4, .cell 2⟩], .cell 1)
+      ∧ footprint h (.nreverse (.cell 1)) = [1, 0] ∧ chain h 5 (.cell 3) = some [3, 2] := by
+  refine ⟨by rfl, by rfl, by rfl⟩
+
+/-! ## extending operations never overwrite -/
+
+/-- An extending operation (`cons push list* append add nconc`) keeps the car of every existing cell
+    and changes the cdr of an existing cell only where it was nil. -/
+theorem extending_writes_only_nil_cdrs {h h' : Heap} {op : Op} {res : Ref}
+    (hx : op.extending = true) (hr : run h op = .ok (h', res)) : NilExt h h' := by
+  cases hd : op.destructive with
+  | false =>
+    obtain ⟨ext, he⟩ := nondestructive_only_allocates hd hr
+    subst he
+    exact nilExt_of_append h ext
+  | true =>
+    cases op with
+    | nconc x y =>
+      unfold run at hr
+      cases hcx : chainOf h x with
+      | error e => simp [hcx, bind, Except.bind] at hr
+      | ok as =>
+        cases hcy : chainOf h y with
+        | error e => simp [hcx, hcy, bind, Except.bind] at hr
+        | ok bs =>
+          simp [hcx, hcy, bind, Except.bind] at hr
+          split at hr
+          · simp at hr; rw [← hr.1]; simpa using nilExt_of_append h []
+          · simp at hr; rw [← hr.1]; simpa using nilExt_of_append h []
+          · rename_i l _ hl
+            split at hr
+            · simp at hr
+            · simp at hr
+              rw [← hr.1]
+              have hch : chain h (stdFuel h) x = some as := by
+                unfold chainOf at hcx
+                split at hcx
+                · rename_i as' hh; simp at hcx; rw [hh, hcx]
+                · simp at hcx
+              obtain ⟨cl, hgl, hnil⟩ := chain_last_cdr_nil hch hl
+              intro a c hg
+              by_cases hal : a = l
+              · subst hal
+                rw [hgl] at hg
+                have : cl = c := Option.some.inj hg
+                subst this
+                exact ⟨_, setCdr_eq _ hgl, rfl, Or.inr hnil⟩
+              · exact ⟨c, by rw [setCdr_ne _ _ hal, hg], rfl, Or.inl rfl⟩
+    | add x vs =>
+      unfold run at hr
+      cases hcx : chainOf h x with
+      | error e => simp [hcx, bind, Except.bind] at hr
+      | ok as =>
+        obtain ⟨ext, he⟩ := allocList_grows h vs .nil
+        simp [hcx, bind, Except.bind] at hr
+        cases hl : as.getLast? with
+        | none =>
+          simp [hl] at hr
+          rw [← hr.1, he]; exact nilExt_of_append h ext
+        | some l =>
+          simp [hl] at hr
+          rw [← hr.1]
+          have hch : chain h (stdFuel h) x = some as := by
+            unfold chainOf at hcx
+            split at hcx
+            · rename_i as' hh; simp at hcx; rw [hh, hcx]
+            · simp at hcx
+          obtain ⟨cl, hgl, hnil⟩ := chain_last_cdr_nil hch hl
+          have hll : l < h.length := (List.getElem?_eq_some_iff.mp hgl).1
+          intro a c hg
+          have hal' : a < h.length := (List.getElem?_eq_some_iff.mp hg).1
+          by_cases hal : a = l
+          · subst hal
+            rw [hgl] at hg
+            have : cl = c := Option.some.inj hg
+            subst this
+            have hg1 : (allocList h vs .nil).1[a]? = some cl := by
+              rw [he, getElem?_append_old h ext hll, hgl]
+            exact ⟨_, setCdr_eq _ hg1, rfl, Or.inr hnil⟩
+          · refine ⟨c, ?_, rfl, Or.inl rfl⟩
+            rw [setCdr_ne _ _ hal, he, getElem?_append_old h ext hal', hg]
+    | lit vs => simp [Op.destructive] at hd
+    | alias x => simp [Op.destructive] at hd
+    | cons v x => simp [Op.destructive] at hd
+    | listStar v w x => simp [Op.destructive] at hd
+    | append x y => simp [Op.destructive] at hd
+    | nthcdr n x => simp [Op.destructive] at hd
+    | last n x => simp [Op.destructive] at hd
+    | member v x => simp [Op.destructive] at hd
+    | butlast n x => simp [Op.destructive] at hd
+    | subseq s e x => simp [Op.destructive] at hd
+    | copyList x => simp [Op.destructive] at hd
+    | reverse x => simp [Op.destructive] at hd
+    | remove p x => simp [Op.destructive] at hd
+    | mapcar f x => simp [Op.destructive] at hd
+    | rplaca x v => simp [Op.extending] at hx
+    | setNth n x v => simp [Op.extending] at hx
+    | rplacd x y => simp [Op.extending] at hx
+    | nreverse x => simp [Op.extending] at hx
+    | sort x => simp [Op.extending] at hx
+    | delete p x => simp [Op.extending] at hx
+
+/-- **extend_no_overwrite.** Extending a list by `cons push list* append add nconc` never overwrites
+    an element reachable from any variable: whatever list `r` denoted before, its cells and its
+    printed contents are a prefix of what it denotes afterwards. -/
+theorem extend_no_overwrite {h h' : Heap} {op : Op} {res : Ref}
+    (hx : op.extending = true) (hr : run h op = .ok (h', res))
+    {n m : Nat} {r : Ref} {as as' : List Nat}
+    (hc : chain h n r = some as) (hc' : chain h' m r = some as') :
+    as <+: as' ∧ carsOf h as <+: carsOf h' as' := by
+  have hne := extending_writes_only_nil_cdrs hx hr
+  have hp := nilExt_prefix hne hc hc'
+  refine ⟨hp, ?_⟩
+  rw [← nilExt_cars hne hc]
+  exact carsOf_prefix h' hp
+
+/-- For the non-destructive extensions (`cons push list* append`) nothing reachable from another
+    variable is written at all: every existing list is literally unchanged. -/
+theorem cons_push_append_write_nothing {h h' : Heap} {op : Op} {res : Ref}
+    (_hx : op.extending = true) (hnd : op.destructive = false) (hr : run h op = .ok (h', res))
+    {n : Nat} {r : Ref} {as : List Nat} (hc : chain h n r = some as) :
+    chain h' n r = some as ∧ carsOf h' as = carsOf h as :=
+  (nondestructive_frame hnd hr hc).2
+
+-- a = (1 2), b = (cdr a): (add a 7) extends both, overwrites neither
+example :
+    let h : Heap := [⟨2, .nil⟩, ⟨1, .cell 0⟩]
+    run h (.add (.cell 1) [7]) = .ok ([⟨2, .cell 2⟩, ⟨1, .cell 0⟩, ⟨7, .nil⟩], .cell 1)
+      ∧ contents h 3 (.cell 0) = some [2]
+      ∧ contents [⟨2, .cell 2⟩, ⟨1, .cell 0⟩, ⟨7, .nil⟩] 4 (.cell 0) = some [2, 7] := by
+  refine ⟨by rfl, by rfl, by rfl⟩
 
 end SlipVerif.ListHeap
